@@ -432,7 +432,7 @@ def finalize(cov, agg, tier):
 
 def subs(tier):
     return [Sub("fuzzingrid", st.just({}), run_fuzzingrid, quick=1, thorough=1, needs=("fuzzmaps",),
-                enum=lambda t: fuzzrun.campaigns(t, 12000, 600000), max_wall={"quick": 400, "thorough": 3000}),
+                enum=lambda t: fuzzrun.campaigns(t, 12000, 250000), max_wall={"quick": 400, "thorough": 3000}),
             Sub("blob", blob_cases(), run_blob, quick=6000, thorough=300000),
             Sub("ingrid", ingrid_cases(), run_ingrid, quick=2400, thorough=100000),
             Sub("ensemble", ensemble_cases(), run_ensemble, quick=48, thorough=800, shrink_budget=12),
